@@ -100,4 +100,15 @@ theorem subset_vector_total (null : α) (sh : Shp) (hc : Consistent sh) (h5 : sh
     ∃ p, subsetVecK null sh ks idx = .ok p :=
   Total.subsetVecK_ok null sh hc h5 ks hv idx hidx
 
+/-- **C04 (time axis, 5-D parent, per key), after the final `_simplify`:** the piece for time point
+    `idx` is valid for the `(x,y,z,1,V)` shape and reads, at every slice and vector position, what the
+    parent reads at that time point -/
+theorem subset_time5 (null : α) (sh : Shp) (hc : Consistent sh) (h5 : sh.nd = 5) (hV2 : 2 ≤ sh.V)
+    (ks : KeyState α) (hv : ValidK sh ks) (idx : Nat) (hidx : idx < sh.T)
+    (p : KeyState α) (h : subsetTimeK null sh ks idx = .ok p) :
+    ValidK (timeSubsetShp sh) p ∧
+    ∀ s v, s < sh.S → v < sh.V →
+      lookupKS null (timeSubsetShp sh) p s 0 v = lookupKS null sh ks s idx v :=
+  Total.subsetTime_spec5 null sh hc h5 hV2 ks hv idx hidx p h
+
 end C04
